@@ -618,7 +618,8 @@ Lemma ack_check_fresh : forall cx s ip r tg,
   tcp_process_ack_check cx s ip r = Ok (Cont tg tt) ->
   u32 (s_local_seq_no s) -> seg_ok r -> r_control r <> CRst ->
   (s_state s = Listen -> r_ack_number r = None) /\
-  (s_state s = SynSent -> r_control r = CSyn) /\
+  (s_state s = SynSent -> r_control r = CSyn /\
+     forall a, r_ack_number r = Some a -> a = seq_add (s_local_seq_no s) 1) /\
   (forall a, r_ack_number r = Some a -> a = s_local_seq_no s \/ seq_lt (s_local_seq_no s) a = true) /\
   (s_state s <> Listen -> s_state s <> SynSent -> r_ack_number r <> None).
 Proof.
@@ -633,7 +634,13 @@ Proof.
            | (do _ <- ?m; _) = _ => destruct m; cbn [obind] in H
            | (let '(_, _) := ?m in _) = _ => destruct m
            end; try discriminate;
-    (split; [congruence|]); (split; [congruence|]); (split; [|congruence]);
+    (split; [congruence|]);
+    (split; [first [congruence |
+                    intros _; split; [reflexivity|]; intros a' Ea; first [discriminate Ea |
+                      inversion Ea; subst a';
+                      match goal with E : negb (_ =? _) = false |- _ =>
+                        apply negb_false_iff, Z.eqb_eq in E; exact E end]]|]);
+    (split; [|congruence]);
     intros a' Ea; inversion Ea; subst a'; clear Ea;
     try (match goal with E : (_ =? _) = true |- _ => apply Z.eqb_eq in E; subst a end; exact Hsucc);
     try (match goal with E : negb (_ =? _) = false |- _ =>
@@ -988,8 +995,8 @@ Lemma timers_spec : forall cx s al aall,
                          (rtte_retransmission_timeout (s_rtte s)) al aall.
 Proof.
   intros. unfold s6, tcp_process_timers, timers_fn, core_but_timer.
-  destruct (s_timer s); try destruct aall; try destruct (al >? 0); cbn [fst]; sproj;
-    conj_split; reflexivity.
+  destruct (s_timer s) eqn:Ht; try destruct aall; try destruct (al >? 0); cbn [fst]; sproj;
+    conj_split; try reflexivity; exact Ht.
 Qed.
 
 Definition zwp_fn (t : timer) (now : Z) (ka : option Z) (rto al w len : Z) (flight : bool) : timer :=
@@ -1065,4 +1072,27 @@ Proof.
     inversion H; subst s8. cbn [fst] in Ca.
     eapply core_eq_trans; [exact Cq|]. eapply core_eq_trans; [exact Cm | exact Ca].
   - inversion H; subst s8. eapply core_eq_trans; [exact Cq | exact Cm].
+Qed.
+
+(* ---------- tcp_process ---------- *)
+Lemma ack_check_ret : forall cx s ip r tg s1 reply,
+  tcp_process_ack_check cx s ip r = Ok (Ret tg s1 reply) -> tcp_live_inv s -> tcp_live_inv s1.
+Proof.
+  intros cx s ip r tg s1 reply H I. unfold tcp_process_ack_check in H.
+  pose proof (challenge_ack_core cx s ip r) as C.
+  destruct (s_state s); destruct (r_control r); destruct (r_ack_number r);
+    repeat match type of H with
+           | context [if ?b then _ else _] => destruct b
+           | (do _ <- ?m; _) = _ => destruct m; cbn [obind] in H
+           | (let '(_, _) := ?m in _) = _ => destruct m
+           end; try discriminate; inversion H; subst; try exact I;
+    exact (inv_core_eq _ _ C I).
+Qed.
+
+Lemma transition_cont_not_rst : forall cx s ip r c al aof tg s3,
+  tcp_process_transition cx s ip r c al aof = Ok (Cont tg s3) -> c <> CRst.
+Proof.
+  intros cx s ip r c al aof tg s3 H. unfold tcp_process_transition in H.
+  destruct (s_state s); destruct c; try discriminate;
+    repeat match type of H with context [if ?b then _ else _] => destruct b end; discriminate.
 Qed.
